@@ -38,6 +38,10 @@ VARIANTS = [
       *replace_expr("len(value_shape) - len(batch_shape) - len(event_shape)",
                     "len(value_shape) - len(event_shape)"),
       note="batch dims counted as sample dims", expect_rule="C17.R2"),
+    V("c17_setter_partial_autoupdate", "M", "liesel/model/nodes.py", "Value.value#setter",
+      *replace_expr("self.model.update()", "self.model.update(*(o.name for o in self.outputs))"),
+      note="the draw assigned by simulate refreshes only the direct outputs",
+      expect_rule="C17.R3"),
     # ---- twins
     V("c17_t_full_update", "T", F, S,
       *replace_expr("self.update(*(node.name for node in dist.all_input_nodes()))",
